@@ -1,5 +1,5 @@
 from vdriver import Group
-META = {'level': 'other'}
+META = {'level': 'other', 'assumptions': ['std::shared_ptr / std::weak_ptr are lowered to plain pointers: reference counts, object lifetime and weak_ptr expiry are not modelled (every session object stays alive during one event)', 'the relay handles events sequentially (single-threaded epoll loop): one handler call per obligation']}
 STUBS = ['relay__RelayServer__close_session', 'relay__RelayServer__queue_text', 'relay__is_hex_string', 'peer_id_from_string', 'peer_id_to_string']
 def groups(tier):
     K = dict(unit='relay_pairing', harness='C25/pairing.c', stub=STUBS, unwind=6, unwind_by={'cxx_strlen': 30, 'str_from_n': 30, 'cxx_memcmp': 10, 'h_connect': 10, 'h_register': 10, 'h_detach': 10}, kind='unbounded', backend=['sat', 'cadical'], timeout=600,
